@@ -198,6 +198,8 @@ def run(chk, facts, tier, only=None, floor=60):
         # "... and inside vectors and maps": the big-number decoders are selected per component by fast-path flags that are re-established
         # at every dispatch (an int key must not be read by the previous value's nat decoder)
         chk.include(c08, "C08.R2", "C09.R4", facts)
+        import c02
+        chk.include(c02, "C02.R14", "C09.R6", facts)    # out-of-range strings are rejected also below an opt (range errors are not coercion failures)
 
 
 def run_config(chk, facts, cfg):
